@@ -95,7 +95,7 @@ Inv_C12 == \A api \in {ApiModel(Dev)} :
 P_C10 == [][C10_RegisterFree(g, ev', now) /\ C10_Renew(g', ev', now) /\ C10_Announced(g, g', ev')]_mcvars
 P_C11 == [][C11_UnauthorisedInert(g, ev', now)]_mcvars
 P_C12 == [][/\ C12_Lists(g, g') /\ C12_Ops(g, ev', now) /\ C12_RegisterConflict(g, ev')
-            /\ C12_Serial(g, ev', now, [soa |-> [n \in NT |-> MSoa(Dev, n)]'])]_mcvars
+            /\ C12_Serial(g, ev', now, now', [soa |-> [n \in NT |-> MSoa(Dev, n)]'])]_mcvars
 
 \* the storage agrees with the reference machine (binding of the two views inside the Spec)
 Inv_Ref == /\ \A n \in Names : g.reg[n] = ns[n]
